@@ -92,7 +92,9 @@ func c05Notify(prefix []int, mode string, pad int) explore.Outcome {
 		var nb, nfOK, nfFail int
 		vsched.Go("send-A", func() { e1 = w.send(0, "a1", pad); e2 = w.send(0, "a2", pad) })
 		if mode != "ls" {
-			vsched.Go("broadcast", func() { nb, eb = w.r.Server.BroadcastNotification("notifications/message", map[string]interface{}{"tag": "bc"}) })
+			vsched.Go("broadcast", func() {
+				nb, eb = w.r.Server.BroadcastNotification("notifications/message", map[string]interface{}{"tag": "bc"})
+			})
 			vsched.Go("filtered", func() {
 				nfOK, nfFail, ef = w.r.Server.SendFilteredNotification("notifications/message", map[string]interface{}{"tag": "fl"}, func(id string) bool { return id == w.sid(1) })
 			})
@@ -367,7 +369,9 @@ func c05Endings(tier string, i int) CaseResult {
 				return
 			}
 			rp.Call(`{"jsonrpc":"2.0","id":5,"method":"tools/call","params":{"name":"grab"}}`, "5")
-			call = func(ctx context.Context) (*mcp.ListRootsResult, error) { return r.Stdio.ListRoots(mergeCtx(ctx, toolCtx)) }
+			call = func(ctx context.Context) (*mcp.ListRootsResult, error) {
+				return r.Stdio.ListRoots(mergeCtx(ctx, toolCtx))
+			}
 		} else {
 			w, err := c05New(mode, 1, true)
 			if err != nil {
